@@ -326,6 +326,18 @@ func genCase(r *vh.Rand) kase {
 		default:
 			e.Kind = "fifo"
 		}
+		// re-use the name of an earlier entry (repeated directory entries, a directory
+		// or file later replaced by a link of the same name, entries below it afterwards)
+		if len(k.Entries) > 0 && r.Chance(1, 4) {
+			prev := k.Entries[r.Intn(len(k.Entries))]
+			e.Name = strings.TrimSuffix(prev.Name, "/")
+			if r.Chance(1, 3) && e.Name != "" {
+				e.Name += "/" + []string{"a", "b", "x"}[r.Intn(3)]
+			}
+			if e.Kind == "sym" && r.Chance(1, 2) {
+				e.Link = []string{"a/..", "b/..", ".", "a", "../a/.."}[r.Intn(5)]
+			}
+		}
 		if e.Kind != "dir" {
 			e.Name = strings.TrimSuffix(e.Name, "/")
 		}
@@ -367,6 +379,14 @@ func witnesses() []kase {
 			Entries: []entry{{Kind: "reg", Name: "c/s0.txt", Data: "EVIL"}, {Kind: "reg", Name: "c/new.txt", Data: "EVIL"}}},
 		{Note: "link entry that names the destination itself", Init: d, Entries: []entry{{Kind: "sym", Name: ".", Link: "dest/x"}, {Kind: "reg", Name: "f", Data: "x"}}},
 		{Note: "hard link entry that names the destination itself", Init: d, Entries: []entry{{Kind: "hard", Name: "a/..", Link: "b"}}},
+		{Note: "a directory that was checked once is replaced by a link (stale 'already inspected' verdict): a -> ., d, d again, d -> a/.., write d/escape.txt", Init: d, Entries: []entry{
+			{Kind: "sym", Name: "a", Link: "."}, {Kind: "dir", Name: "d"}, {Kind: "dir", Name: "d"}, {Kind: "sym", Name: "d", Link: "a/.."}, {Kind: "reg", Name: "d/escape.txt", Data: "EVIL"}}},
+		{Note: "same, overwriting an existing outside file", Init: d, Entries: []entry{
+			{Kind: "sym", Name: "a", Link: "."}, {Kind: "dir", Name: "d/"}, {Kind: "reg", Name: "d/x", Data: "x"}, {Kind: "hard", Name: "keep", Link: "d/x"}, {Kind: "dir", Name: "d"},
+			{Kind: "sym", Name: "d/x", Link: "."}, {Kind: "dir", Name: "e"}, {Kind: "dir", Name: "e"}, {Kind: "sym", Name: "e", Link: "a/.."}, {Kind: "reg", Name: "e/s1.txt", Data: "EVIL"}}},
+		{Note: "checked directory replaced by a link, then mkdir / hard link / link through it", Init: d, Entries: []entry{
+			{Kind: "sym", Name: "a", Link: "."}, {Kind: "dir", Name: "d"}, {Kind: "reg", Name: "f", Data: "F"}, {Kind: "dir", Name: "d"}, {Kind: "sym", Name: "d", Link: "a/.."},
+			{Kind: "dir", Name: "d/newdir"}}},
 		{Note: "plain traversal names", Init: d, Entries: []entry{{Kind: "reg", Name: "../evil", Data: "EVIL"}}},
 		{Note: "absolute name", Init: d, Entries: []entry{{Kind: "reg", Name: "/evil", Data: "EVIL"}}},
 		{Note: "escaping link target", Init: d, Entries: []entry{{Kind: "sym", Name: "l", Link: "../other"}, {Kind: "reg", Name: "l/evil", Data: "EVIL"}}},
